@@ -156,7 +156,22 @@ func c12Body(x *explore.Ctx, connIdx int, bytePos int) {
 			rh = http.Header{"Sec-Websocket-Protocol": {v}}
 		}
 	} else {
-		switch x.Choose(9, "responseHeader") {
+		switch x.Choose(16, "responseHeader") {
+		case 9: // application-supplied extension headers are documented as unsupported: whatever form they take,
+			// the 101 (if any) must not announce what was not negotiated
+			rh = http.Header{"Sec-Websocket-Extensions": {"permessage-deflate"}}
+		case 10:
+			rh = http.Header{"Sec-Websocket-Extensions": {"", "permessage-deflate; server_no_context_takeover; client_no_context_takeover"}}
+		case 11:
+			rh = http.Header{"Sec-Websocket-Extensions": {""}}
+		case 12:
+			rh = http.Header{"Sec-Websocket-Extensions": {}}
+		case 13:
+			rh = http.Header{"sec-websocket-extensions": {"permessage-deflate; server_no_context_takeover; client_no_context_takeover"}}
+		case 14:
+			rh = http.Header{"SEC-WEBSOCKET-EXTENSIONS": {"x-foo", "permessage-deflate"}}
+		case 15:
+			rh = http.Header{"sec-websocket-protocol": {"chat"}}
 		case 8: // more header bytes than any internal buffer holds
 			rh = http.Header{}
 			for i := 0; i < 24; i++ {
@@ -203,13 +218,21 @@ func c12Body(x *explore.Ctx, connIdx int, bytePos int) {
 		x.Check(w.Status >= 400 && w.Status <= 599, key("no-error-status"), "failed upgrade replied with status %d", w.Status)
 		x.Check(len(nc.Out) == 0, key("wrote-on-failure"), "failed upgrade wrote %d bytes to the connection", len(nc.Out))
 	}
+	appExt := false // Upgrade documents application-supplied extension headers as unsupported: refusing them is not a broken "iff"
+	for k := range rh {
+		if hsref.FoldASCII(k) == "sec-websocket-extensions" {
+			appExt = true
+		}
+	}
 	if v.Decided {
 		wantOK := v.Valid && originOK
-		if wantOK {
+		if wantOK && appExt {
+			// either outcome; the failure rules above and the announcement rule below still apply
+		} else if wantOK {
 			x.Check(conn != nil, key("valid-rejected"), "valid opening handshake rejected: %v (Connection=%q Upgrade=%q Version=%q Key=%q)", err, hdr["Connection"], hdr["Upgrade"], hdr["Sec-Websocket-Version"], hdr["Sec-Websocket-Key"])
 		} else {
 			x.Check(conn == nil, key("invalid-accepted:"+strings.Join(append(v.Problems, map[bool]string{true: "", false: "origin"}[originOK]), "+")), "invalid opening handshake accepted (problems %v, origin allowed %v): method=%s Connection=%q Upgrade=%q Version=%q Key=%q", v.Problems, originOK, method, hdr["Connection"], hdr["Upgrade"], hdr["Sec-Websocket-Version"], hdr["Sec-Websocket-Key"])
-			if v.Valid && !originOK {
+			if v.Valid && !originOK && !appExt { // with an unsupported application header there are two reasons to refuse
 				x.Check(w.Status == 403, key("origin-status"), "origin refused with status %d, want 403", w.Status)
 			}
 			if originOK && len(v.Problems) == 1 && v.NoUpgradeToken {
